@@ -9,6 +9,16 @@ TRUST = ("Trusted base: CPython, Hypothesis, the reference models under lsfverif
          "'held' means held on the cases counted in the evidence file.")
 
 CHECKS = {
+    "C07": dict(
+        category="exploration",
+        technique="property-based differential testing of generated Retry/Catch policies and outcome sequences against a reference policy model on a virtual clock (invocation counts, exact request instants, outcome)",
+        text=("Hypothesis generates retrier/catcher lists, the retried state kind (Task, Parallel, Map), outcome sequences (custom errors, States.Timeout from a slow worker, ResultPathMatchFailure / IntrinsicFailure / "
+              "Runtime raised by the state's own filters, then success or not) and a following state that must retry from a clean counter. The engine runs under the zero-latency canonical schedule on the virtual clock; "
+              "the number of invocations, the instant of every request (never before failure_k + Interval*Backoff^k, equal within 1 ms), the catcher chosen, the placement of the Error Output and the final outcome "
+              "are compared with a reference calibrated on the specification's own complex retry scenario."),
+        design_ref="DESIGN.md section 5 C07",
+        note="One listed finding (shared RetryCount across retriers) is reported as its own class so that single-retrier sequences keep gating. " + TRUST,
+    ),
     "C05": dict(
         category="exploration",
         technique="exhaustive enumeration of scheduler interleavings (stateless DFS over delivery/reply/timer choices) for small fan-outs plus Hypothesis-sampled schedules and worker delays for larger/nested ones; positional, join-order, exactly-once and in-flight oracles on the broker log",
